@@ -417,7 +417,11 @@ C09Sigs(F) ==
             ELSE IF \A j \in 1..n : Abs(err(j)) <= UnitsPerTick THEN {}
             ELSE IF \A j \in 1..n : Abs(err(j) - err(1)) <= 2 * UnitsPerTick
                  THEN {Sig("C09", "SyncPreserved", "audio",
+                           \* the recorded finding is exactly this: both timelines start at 0 (no edit list), so every audio
+                           \* sample is off by (decode time of the first video frame - first audio time); any other constant
+                           \* is a different defect
                            IF StartOf(TV) = 0 /\ StartOf(TA) = 0 /\ "elst" \notin DOMAIN TV /\ "elst" \notin DOMAIN TA
+                              /\ Abs(err(1) - (v[1].d3 - a[1].p3)) <= 2 * UnitsPerTick
                            THEN "no-start-offset" ELSE "start-offset-wrong")}
                  ELSE {Sig("C09", "SyncPreserved", "audio", "timeline")}
 
